@@ -396,7 +396,7 @@ def _opt_check(res, cls, plain, pool, calls, argsets, tag, kind, memoizes=True,
                      f"optimized mapper {tag} on {e!r} {args!r}: {type(exc).__name__}: {exc}")
             return
         if walk.key(got, strict=False) != walk.key(want, strict=False):
-            res.fail(f"{kind}:{tag}:result-differs",
+            res.fail(f"{kind}:{tag}:result-differs" + (":retyped-composite" if call_amb else ""),
                      f"optimized mapper {tag}, call {step} on {e!r} {args!r}: {got!r}, "
                      f"unoptimized non-memoizing mapper {want!r}")
             return
@@ -439,12 +439,22 @@ def check_optfree(spec):
     for combo, cls in sorted(O.OPT_ALIAS.items()):
         _opt_check(res, cls, O.PlainMarker, pool, spec["calls"], [()],
                    "alias-family:" + _tag(combo, names), "optfree", memoizes=False)
+    # a class whose cache key function has a guard clause: refusal to inline it is fine,
+    # an accepted class keeps 4, 4.0 and True apart like the class as written
+    if O.OPT_GUARD_ERRORS:
+        c, exc = sorted(O.OPT_GUARD_ERRORS.items())[0]
+        res.fail("optfree:guard-family:optimize_mapper-raised",
+                 f"options {c}: {type(exc).__name__}: {exc}")
+    for combo, cls in sorted(O.OPT_GUARD.items()):
+        _opt_check(res, cls, O.PlainConstMarker, pool, spec["calls"], [()],
+                   "guard-family:" + _tag(combo, names), "optfree", memoizes=False)
     res.nontrivial = len(spec["calls"]) >= 2 and any(
         walk.children(x) for x in pool if not isinstance(x, _Fresh))
     res.label("optimizer")
     res.sample = {"pool": [repr(getattr(x, "spec", x))[:80] for x in pool],
                   "calls": spec["calls"][:8],
-                  "combinations": len(O.OPT_FREE) + len(O.OPT_ALIAS)}
+                  "combinations": len(O.OPT_FREE) + len(O.OPT_ALIAS) + len(O.OPT_GUARD),
+                  "guard-key classes refused by the optimizer": len(O.OPT_GUARD_REFUSED)}
     return res
 
 
